@@ -12,7 +12,8 @@ PROP = {'id': 'C10',
                'Cluster.mark_canceled',
                'Cluster._update_job_status',
                'Cluster.update_job_status',
-               'try_submit_jobs'],
+               'try_submit_jobs',
+               'resubmit_jobs'],
  'native': ['Cluster._serialize'],
  'lemmas': ['lemma_c10_single_submitter'],
  'records': ['Cluster', 'ClusterConfig'],
